@@ -297,7 +297,8 @@ fn exec<K: Key + 'static, V: Value + 'static>(
     cfg: &Config,
     reserve: Option<Reserve<K, V>>,
     mk: &mut Markers,
-) -> String {
+    out: &mut String,
+) {
     let def: TableDefinition<K, V> = TableDefinition::new("t");
     let backend = RecBackend::new();
     backend.0.lock().unwrap().record = false;
@@ -309,7 +310,6 @@ fn exec<K: Key + 'static, V: Value + 'static>(
     if let Some(cs) = cfg.cache_size {
         builder.set_cache_size(cs);
     }
-    let mut out = String::new();
     writeln!(out, "C {}", prog.id).unwrap();
     let mut db = builder.create_with_backend(backend.handle()).unwrap();
     let mut flip = false;
@@ -320,7 +320,7 @@ fn exec<K: Key + 'static, V: Value + 'static>(
             let mut t = w.open_table(def).unwrap();
             let mut prev = t.stats().unwrap();
             for (i, op) in txn.ops.iter().enumerate() {
-                exec_op::<K, V>(&mut t, op, prog.kt, reserve, &mut out);
+                exec_op::<K, V>(&mut t, op, prog.kt, reserve, out);
                 if op.mutates() {
                     if i == 0 { mk.ops_on_clean += 1 } else { mk.ops_on_dirty += 1 }
                     let st = t.stats().unwrap();
@@ -338,35 +338,38 @@ fn exec<K: Key + 'static, V: Value + 'static>(
             End::Commit => {
                 w.commit().unwrap();
                 flip = !flip;
-                dump::<K, V>(&db, def, "K", &mut out, flip);
+                dump::<K, V>(&db, def, "K", out, flip);
             }
             End::Abort => {
                 w.abort().unwrap();
-                dump::<K, V>(&db, def, "A", &mut out, flip);
+                dump::<K, V>(&db, def, "A", out, flip);
             }
         }
         if txn.reopen {
             drop(db);
             db = builder.create_with_backend(backend.handle()).unwrap();
-            dump::<K, V>(&db, def, "O", &mut out, !flip);
+            dump::<K, V>(&db, def, "O", out, !flip);
         }
     }
-    out
 }
 
 fn run_prog(prog: &Program, cfg: &Config, mk: &mut Markers) -> String {
+    // the output produced before a panic is kept: the first differing line is then the operation that panicked
+    let mut out = String::new();
     let r = catch(|| match (prog.kt, prog.vt) {
-        (KType::Bytes, VType::Bytes) => exec::<&[u8], &[u8]>(prog, cfg, Some(reserve_bytes::<&[u8]>), mk),
-        (KType::U64, VType::Bytes) => exec::<u64, &[u8]>(prog, cfg, Some(reserve_bytes::<u64>), mk),
-        (KType::Str, VType::U64) => exec::<&str, u64>(prog, cfg, None, mk),
-        (KType::Str, VType::Bytes) => exec::<&str, &[u8]>(prog, cfg, Some(reserve_bytes::<&str>), mk),
-        (KType::Bytes, VType::U64) => exec::<&[u8], u64>(prog, cfg, None, mk),
-        (KType::U64, VType::U64) => exec::<u64, u64>(prog, cfg, None, mk),
+        (KType::Bytes, VType::Bytes) => exec::<&[u8], &[u8]>(prog, cfg, Some(reserve_bytes::<&[u8]>), mk, &mut out),
+        (KType::U64, VType::Bytes) => exec::<u64, &[u8]>(prog, cfg, Some(reserve_bytes::<u64>), mk, &mut out),
+        (KType::Str, VType::U64) => exec::<&str, u64>(prog, cfg, None, mk, &mut out),
+        (KType::Str, VType::Bytes) => exec::<&str, &[u8]>(prog, cfg, Some(reserve_bytes::<&str>), mk, &mut out),
+        (KType::Bytes, VType::U64) => exec::<&[u8], u64>(prog, cfg, None, mk, &mut out),
+        (KType::U64, VType::U64) => exec::<u64, u64>(prog, cfg, None, mk, &mut out),
     });
-    match r {
-        Ok(s) => s,
-        Err(msg) => format!("C {}\nPANIC {}\n", prog.id, msg.replace('\n', " ")),
+    if let Err(msg) = r {
+        if !out.starts_with("C ") { out = format!("C {}\n", prog.id); }
+        if !out.ends_with('\n') { out.push('\n'); }
+        out.push_str(&format!("PANIC {}\n", msg.replace('\n', " ")));
     }
+    out
 }
 
 fn main() {
